@@ -5,6 +5,12 @@ import Qryn.Proofs.LogQLPlan
 import Qryn.Proofs.ConfineMetric
 import Qryn.LogQL.PostMetric
 import Qryn.Proofs.ConfineTrace
+import Qryn.Proofs.ConfineRead
+import Qryn.Proofs.LogQLMetric
+import Qryn.Proofs.TraceQLLimit
+import Qryn.Proofs.TraceQLTree
+import Qryn.Proofs.PromSelect
+import Qryn.Proofs.ProfSelector
 /-! # C13 — every read is confined to the requested time window and signal type
 
 `Confine.confined` is a structural predicate on statements (every base-table scan carries timestamp
@@ -236,5 +242,142 @@ example : TraceCfg ⟨fun t => if t = "tempo_traces" ∨ t = "tempo_traces_dist"
       fun _ => false, fun t => t = "tempo_traces" ∨ t = "tempo_traces_dist"⟩
     ⟨100, 200, 0, 10, false, "tempo_traces_attrs_gin", "tempo_traces_attrs_gin_dist", "tempo_traces", "tempo_traces_dist", 0, 0, []⟩ := by
   constructor <;> decide
+
+end Qryn.C13
+
+/-! ## Loki series / label values, Prometheus remote read, Pyroscope selector -/
+namespace Qryn.C13
+open Qryn Qryn.Sql Qryn.LogQL Qryn.Confine
+
+/-- **all_scans_confined_series.** `SeriesPlanner.Process` (GET /loki/api/v1/series) over every selector of the
+    fragment: the time_series scan carries `date ≥ date(From − 30 min)`, `date ≤ date(To)` (UTC) and the type
+    filter, the fingerprint sub-queries are confined as in `all_scans_confined_logql`. Both table layouts. -/
+theorem all_scans_confined_series (cfg : Cfg) (c : Ctx) (h : LokiCfg cfg c) (q : LogQuery) :
+    confined cfg (winOf c) (planSeries c q) = true :=
+  planSeries_confined cfg c h q
+
+/-- **all_scans_confined_values.** `ValuesPlanner.Process` (label values), with a selector or without one. -/
+theorem all_scans_confined_values (cfg : Cfg) (c : Ctx) (h : LokiCfg cfg c) (key : Bytes) (q : Option LogQuery) :
+    confined cfg (winOf c) (LogQL.planValues c key q) = true :=
+  planValues_confined cfg c h key q
+
+/-- **all_scans_confined_prom.** The statements of the Prometheus remote-read path, for every matcher list and
+    every `SelectHints` (every function name, step and range): the raw-sample statement of
+    `TranspileLabelMatchers` (with the instant-vector wrapper and the step filter of `processHints`) scans
+    samples with `From ≤ timestamp_ns ≤ To` and the metrics type, the rollup statement of
+    `GetLabelMatchersDownsampleRequest` scans metrics_15s with `From < timestamp_ns ≤ To` and the type; the
+    label index is scanned with the covering date bound and the type. No slack. -/
+theorem all_scans_confined_prom (cfg : Cfg) (c : Ctx) (h : LokiCfg cfg c) (m15 : String) (hm : cfg.kind m15 = .data)
+    (hh : Prom.Hints) (ms : List Matcher) :
+    confined cfg (winOf c) (Prom.transpileRaw c hh ms) = true ∧
+    confined cfg (winOf c) (Prom.transpileDown c m15 hh ms) = true :=
+  ⟨transpileRaw_confined cfg c h hh ms, transpileDown_confined cfg c h m15 hm hh ms⟩
+
+/-- the Pyroscope selector query for a window: `StreamSelectorPlanner.Process` with the dates it renders from
+    `ctx.From` / `ctx.To` (tied to the real planner's text by the `model-prof` stream) -/
+def profSelector (table : String) (fromNs toNs : Int) (sels : List Prof.Selector) : Option Prof.PQuery :=
+  Prof.plan table (Time.formatFromDate fromNs) (Time.formatDate (Int.fdiv toNs 1000000000)) sels
+
+/-- **prof_selector_confined.** For every selector list (pseudo-labels, key/value selectors, any operators) the
+    Pyroscope fingerprint query keeps both date bounds: a fingerprint it returns has an index row whose date lies
+    between the UTC date of `From − 30 min` and the UTC date of `To` (byte order of `YYYY-MM-DD`), and both
+    comparisons are rendered with the operators `>=` / `<=` (regenerated table of `sql_select`). At most 63
+    key/value selectors (the recorded limit of the bit-set scheme, C17). -/
+theorem prof_selector_confined (re : Bytes → Bytes → Bool) (table : String) (fromNs toNs : Int) (sels : List Prof.Selector)
+    (h63 : (sels.filter (fun s => !Prof.isGlobal s)).length ≤ 63) (tbl : List Prof.PRow) (f : Nat) :
+    ∃ q, profSelector table fromNs toNs sels = some q ∧
+      q.fromDate = Time.formatFromDate fromNs ∧ q.toDate = Time.formatDate (secOf toNs) ∧
+      Prom.fnOf "Ge" = ">=" ∧ Prom.fnOf "Le" = "<=" ∧
+      (f ∈ q.eval re Gen.PromSelect.shiftWidth tbl →
+        ∃ r ∈ tbl, r.fp = f ∧ Prom.bytesLe (Time.formatFromDate fromNs) r.date = true ∧
+          Prom.bytesLe r.date (Time.formatDate (secOf toNs)) = true) := by
+  obtain ⟨q, hq, hiff⟩ := Prof.plan_correct re _ table (Time.formatFromDate fromNs) (Time.formatDate (Int.fdiv toNs 1000000000)) sels
+    (Nat.le_trans h63 (by decide : 63 ≤ Gen.PromSelect.shiftWidth)) h63 tbl f
+  have hd : ∀ (ss : List Prof.Selector) (q' : Prof.PQuery) (a b : Bytes), Prof.plan table a b ss = some q' → q'.fromDate = a ∧ q'.toDate = b := by
+    intro ss
+    induction ss with
+    | nil => intro q' a b h; simp only [Prof.plan, Option.some.injEq] at h; subst h; exact ⟨rfl, rfl⟩
+    | cons s ss ih =>
+      intro q' a b h
+      simp only [Prof.plan] at h
+      split at h
+      · rename_i g q0 _ hq0; injection h with h; subst h; exact ih q0 a b hq0
+      · rename_i k q0 _ hq0; injection h with h; subst h; exact ih q0 a b hq0
+      · cases h
+  obtain ⟨d1, d2⟩ := hd sels q _ _ hq
+  refine ⟨q, hq, d1, by rw [d2, fdiv_sec], by decide, by decide, fun hf => ?_⟩
+  obtain ⟨⟨r, hr, hfp, hdate, _⟩, _⟩ := hiff.mp hf
+  simp only [Prof.dateOk, Bool.and_eq_true] at hdate
+  exact ⟨r, hr, hfp, hdate.1, by rw [← fdiv_sec]; exact hdate.2⟩
+
+/-- **prom_index_confined.** The fingerprint sub-query of the Prometheus path (the LogQL stream selector over
+    Prometheus matchers), for every matcher list of at most 63 matchers: a fingerprint it returns has an index
+    row of the metrics type (or type 0) whose date is not before the UTC date of `From − 30 min`. -/
+theorem prom_index_confined (re : Bytes → Bytes → Bool) (table : String) (fromNs : Int) (tp : Int) (ms : List Prom.Matcher)
+    (h63 : ms.length ≤ 63) (tbl : List Prom.IdxRow) (f : Nat) :
+    ∃ q, Prom.fingerprintsQuery table (Time.formatFromDate fromNs) tp ms = some q ∧
+      (f ∈ q.eval re Gen.PromSelect.shiftWidth tbl →
+        ∃ r ∈ tbl, r.fp = f ∧ Prom.bytesLe (Time.formatFromDate fromNs) r.date = true ∧ (r.type = tp ∨ r.type = 0)) := by
+  obtain ⟨q, hq, hiff⟩ := Prom.fpQuery_correct re _ table (Time.formatFromDate fromNs) tp ms
+    (Nat.le_trans h63 (by decide : 63 ≤ Gen.PromSelect.shiftWidth)) h63 tbl f
+  refine ⟨q, hq, fun hf => ?_⟩
+  obtain ⟨⟨r, hr, hfp, hadm, _⟩, _⟩ := hiff.mp hf
+  simp only [Prom.admissible, Bool.and_eq_true, Bool.or_eq_true, beq_iff_eq] at hadm
+  exact ⟨r, hr, hfp, hadm.1, hadm.2⟩
+
+end Qryn.C13
+
+/-! ## semantic corollaries: what is read lies in the window -/
+namespace Qryn.C13
+open Qryn Qryn.Sql Qryn.LogQL Qryn.Confine
+
+/-- **metric_samples_in_window.** (from C08) Every row the range aggregation of a metric query reads from the
+    samples table lies in the planner's window `[From, To)`; every 15 s slot the shortcut reads from metrics_15s
+    starts in `[From, To)` rounded to the 15 s grid — by `shortcut_bounds_on_grid` less than 15 s outside, and by
+    `shortcut_adds_no_widening` exactly the bucket-aligned window for range queries. -/
+theorem metric_samples_in_window (o : Oracles) (db : Db) (env : Env) (c : MCtx) (q : LogQuery) :
+    (∀ out ∈ evalBodyA o db env (samplesMain c.toCtx q),
+        ∃ t, out.get "timestamp_ns" = .int t ∧ c.fromNs ≤ t ∧ t < c.toNs) ∧
+    (∀ r, optB o env r (some (shortcutWhere c)) = true →
+        ∃ t, r.get "samples.timestamp_ns" = .int t ∧ c.fromNs - 15000000000 < t ∧ t < c.toNs + 15000000000 ∧
+          (r.get "type" = .int (winMetric c (.range ⟨.lra .rate, q, 0, none, none, none⟩)).tp ∨ r.get "type" = .int 0)) := by
+  refine ⟨fun out h => LogQL.window_confined o db env c.toCtx q out h, fun r h => ?_⟩
+  obtain ⟨t, ht, h1, h2⟩ := shortcut_confines o env c r h
+  obtain ⟨a1, _, _⟩ := shortcut_bounds_on_grid c.fromNs
+  obtain ⟨_, b2, _⟩ := shortcut_bounds_on_grid c.toNs
+  refine ⟨t, ht, by omega, by omega, ?_⟩
+  have hc : getTypes c.toCtx ∈ conjuncts (some (shortcutWhere c)) := by
+    have : conjuncts (some (shortcutWhere c)) = [ge (.raw "samples.timestamp_ns") (.int (Int.tdiv c.fromNs slot15 * slot15)),
+        lt (.raw "samples.timestamp_ns") (.int (Int.tdiv c.toNs slot15 * slot15)), getTypes c.toCtx,
+        .isIn (.raw "samples.fingerprint") [.withRef (.named "fp_sel")]] :=
+      conjuncts_and_flat _ (by
+        intro e he
+        simp only [List.mem_cons, List.not_mem_nil, or_false] at he
+        rcases he with rfl | rfl | rfl | rfl
+        · exact splice_logical _ _ (by decide)
+        · exact splice_logical _ _ (by decide)
+        · rfl
+        · rfl)
+    rw [this]; simp
+  exact type_sound o env r _ (getTypes c.toCtx) (getTypes_isTypeFilter c.toCtx) (conjunct_holds o env r _ h _ hc)
+
+/-- **traceql_results_in_window.** (from C11) Which traces the statement of a TraceQL script returns is decided by
+    the index rows inside the window alone: removing every index row whose timestamp is outside `[From, To)` or
+    whose date is outside the window's UTC days changes nothing. -/
+theorem traceql_results_in_window (o : Oracles) (ao : AggOracles) (hp : TraceQL.PermInv ao) (c : TraceQL.Ctx)
+    (d : TraceQL.TraceDb) (hr : c.rndMax = 0) (hcons : TraceQL.DurConsistent d) (script : TraceQL.Script) (X : Sel)
+    (h : TraceQL.rootSel c script = .ok X) (hok : ∀ p ∈ script, TraceQL.SelOk p.1) (env : Env) (tr : Bytes) :
+    (∃ r ∈ evalSelG o ao (d.toDb c) true env X, r.get "trace_id" = .str tr) ↔
+      TraceQL.traceMatches o ao c (d.inWindow c) script tr = true := by
+  have hT := (TraceQL.root_traceSel o ao hp c d hr hcons script X h hok).rows [] env
+  have hX : X.addCols [] = X := by obtain ⟨ws, d', c', f, j, p, w, g, h', ob, l⟩ := X; simp [Sel.addCols]
+  rw [hX] at hT
+  rw [TraceQL.traceMatches_window]
+  exact hT.mem tr
+
+/-- **prom_samples_in_window.** (from C17) The raw-sample scan of the Prometheus path keeps exactly the samples with
+    `From ≤ timestamp_ns ≤ To`. -/
+theorem prom_samples_in_window (fromNs toNs ts : Int) :
+    Prom.scanHolds fromNs toNs ts = true ↔ fromNs ≤ ts ∧ ts ≤ toNs := Prom.scanHolds_iff fromNs toNs ts
 
 end Qryn.C13
